@@ -115,8 +115,11 @@ func newPurgeFixture(e *metaEnv) *purgeFixture {
 		cat = append(cat, lt[:]...)
 		set("r9", treeKey(cat, uint32(lam), 1, 0, true).String())
 	}
+	// f8 is an empty file: its root blob (the hash of no leaf keys) is its only object
+	f.content["f8"] = []byte{}
+	set("r8", treeKey(nil, uint32(lam), 1, 0, true).String())
 	for n := 3; n <= 9; n++ {
-		if n == 9 && purgeBigFile {
+		if n == 9 && purgeBigFile || n == 8 {
 			continue
 		}
 		ln := treeKey(f.content[fmt.Sprintf("f%d", n)], uint32(lam), 0, 0, true)
